@@ -3,12 +3,12 @@
 From BT Require Import Base.Util.
 From BT Require Base.Float Model.RTree Model.BBIFile Model.BigWigWrite Model.Pipeline Model.TempBuf
   Model.BigBedWrite Proofs.BedZoomFit Proofs.PipelineInv Proofs.PipelineThms Proofs.PipelineConv Proofs.PipelineLanes
-  Model.PipelineConc Proofs.PipelineRefine Proofs.PipelineLanesProgress Model.PipelineZoom Proofs.PipelineZoom
+  Model.PipelineConc Proofs.PipelineRefine Proofs.PipelineRefineProgress Proofs.PipelineLanesProgress Model.PipelineZoom Proofs.PipelineZoom
   Proofs.PipelineZoomProgress Model.PipelineSeq Proofs.PipelineSeq Properties.C11.
 
 Module PinC11.
 Import Base.Float Model.RTree Model.BBIFile Model.BigWigWrite Model.Pipeline Proofs.PipelineInv Proofs.PipelineThms
-  Proofs.PipelineConv Proofs.PipelineLanes Model.PipelineConc Proofs.PipelineRefine Proofs.PipelineLanesProgress
+  Proofs.PipelineConv Proofs.PipelineLanes Model.PipelineConc Proofs.PipelineRefine Proofs.PipelineRefineProgress Proofs.PipelineLanesProgress
   Model.PipelineZoom Proofs.PipelineZoom Proofs.PipelineZoomProgress Model.PipelineSeq Proofs.PipelineSeq Properties.C11.
 Check (C11_fifo_order : forall g pre Ss sched, g_fifo g = true ->
   let s := run g sched (init pre Ss) in
@@ -181,4 +181,23 @@ Check (C11_seq_lanes_progress : forall g Ps Sss K ords sched, g_fifo g = true ->
 Check (C11_seq_lanes_completion : forall g Ps Sss K ords sched, g_fifo g = true -> (1 <= g_cap g)%nat -> (1 <= g_win g)%nat ->
   length Ps = length Sss -> (1 <= length Sss)%nat -> Forall (fun Ss => length Ss = K) Sss -> ord_ok Sss ords ->
   exists more, qterminal (qrun g (sched ++ more) (qinit Ps Sss ords)) = true).
+Check (C11_concrete_progress : forall g np pre Ss opss sched, g_fifo g = true -> (1 <= g_cap g)%nat -> (1 <= g_win g)%nat ->
+  Forall2 (fun ops S => TempBuf.written ops = data_bytes S) opss Ss ->
+  let s := crun g sched (cinit np pre Ss opss) in
+  cterminal s = false -> exists t s', cstep g t s = Some s').
+Check (C11_concrete_completion : forall g np pre Ss opss sched, g_fifo g = true -> (1 <= g_cap g)%nat -> (1 <= g_win g)%nat ->
+  Forall2 (fun ops S => TempBuf.written ops = data_bytes S) opss Ss ->
+  (forall t s', cstep g t (crun g sched (cinit np pre Ss opss)) = Some s' ->
+                (conc_measure s' < conc_measure (crun g sched (cinit np pre Ss opss)))%nat) /\
+  exists more, cterminal (crun g (sched ++ more) (cinit np pre Ss opss)) = true).
+Check (C11_concrete_await_never_blocks : forall g np pre Ss opss sched, g_fifo g = true ->
+  Forall2 (fun ops S => TempBuf.written ops = data_bytes S) opss Ss ->
+  let s := crun g sched (cinit np pre Ss opss) in
+  sp_pc (cabs s) = SAwaitFile -> exists s', cstep g CSplice s = Some s').
+Check (C11_concrete_bytes : forall g np pre Ss opss sched, g_fifo g = true ->
+  Forall2 (fun ops S => TempBuf.written ops = data_bytes S) opss Ss ->
+  let s := crun g sched (cinit np pre Ss opss) in
+  forall k c x, nth_error (p_chroms (cabs s)) k = Some c -> nth_error (k_x s) k = Some x ->
+    exists fwd, fwd ++ x_bw x = data_bytes (c_out c) /\
+                fwd ++ TempBuf.written (TempBuf.p_todo (x_buf x)) = data_bytes (nth k Ss [])).
 End PinC11.
